@@ -20,7 +20,9 @@ import (
 	"k8s.io/kubernetes/pkg/scheduler/framework"
 
 	"github.com/koordinator-sh/koordinator/apis/extension"
+	schedulingv1alpha1 "github.com/koordinator-sh/koordinator/apis/scheduling/v1alpha1"
 	schedulingconfig "github.com/koordinator-sh/koordinator/pkg/scheduler/apis/config"
+	reservationutil "github.com/koordinator-sh/koordinator/pkg/util/reservation"
 	vu "github.com/koordinator-sh/koordinator/pkg/verifutil"
 )
 
@@ -53,6 +55,7 @@ func (w *c06World) c19Restart(o *c06Op) vu.Ev {
 	sort.Slice(allocs, func(i, j int) bool { return allocs[i].UID < allocs[j].UID })
 	// persist: the surviving objects
 	plg := c19GetPlugin()
+	w.c19Resv = map[string]*schedulingv1alpha1.Reservation{}
 	var pods []*corev1.Pod
 	for i := range allocs {
 		pa := allocs[i]
@@ -67,7 +70,29 @@ func (w *c06World) c19Restart(o *c06Op) vu.Ev {
 		}
 		cs := framework.NewCycleState()
 		cs.Write(stateKey, &preFilterState{allocation: &pa})
-		if st := plg.preBindObject(context.TODO(), cs, pod, c06Node); !st.IsSuccess() {
+		if (o.Variant+i)%4 == 0 {
+			// this allocation is held by a RESERVATION (same uid): the plugin persists it on the Reservation object
+			// (PreBindReservation) and every scheduler learns it from the reservation informer, which hands the pod
+			// handler the reserve pod made of the template and the Reservation's own annotations. Every other time the
+			// template is a copy of a running pod (as a PodMigrationJob makes it) and still carries THAT pod's allocation.
+			tmpl := corev1.PodTemplateSpec{ObjectMeta: metav1.ObjectMeta{Namespace: "ns", Annotations: map[string]string{}}}
+			for k, v := range pod.Annotations { // the resource-spec annotation belongs to the pod (template)
+				tmpl.Annotations[k] = v
+			}
+			if (o.Variant+i)%8 == 0 {
+				tmpl.Annotations[extension.AnnotationResourceStatus] = `{"cpuset":"0"}`
+			}
+			r := &schedulingv1alpha1.Reservation{
+				ObjectMeta: metav1.ObjectMeta{Name: string(pa.UID), UID: pa.UID},
+				Spec: schedulingv1alpha1.ReservationSpec{Template: &tmpl, TTL: &metav1.Duration{Duration: 1 << 40},
+					Owners: []schedulingv1alpha1.ReservationOwner{{Object: &corev1.ObjectReference{Name: "owner"}}}},
+				Status: schedulingv1alpha1.ReservationStatus{Phase: schedulingv1alpha1.ReservationAvailable, NodeName: c06Node},
+			}
+			if st := plg.PreBindReservation(context.TODO(), cs, r, c06Node); !st.IsSuccess() {
+				panic("PreBindReservation: " + st.Message())
+			}
+			w.c19Resv[string(pa.UID)] = r
+		} else if st := plg.preBindObject(context.TODO(), cs, pod, c06Node); !st.IsSuccess() {
 			panic("preBindObject: " + st.Message())
 		}
 		pods = append(pods, pod)
@@ -102,7 +127,18 @@ func (w *c06World) c19Rebuild(pods []*corev1.Pod, rng *rand.Rand) (*resourceMana
 		nodeAllocations:        map[string]*NodeAllocation{},
 	}
 	h := &podEventHandler{resourceManager: fresh}
+	rh := reservationutil.NewReservationToPodEventHandler(h, reservationutil.IsObjValidActiveReservation)
 	deliver := func(pod *corev1.Pod, how int) {
+		if r := w.c19Resv[string(pod.UID)]; r != nil { // through the reservation informer's handler
+			rh.OnAdd(r, true)
+			switch how {
+			case 0:
+				rh.OnAdd(r.DeepCopy(), true)
+			case 1, 3:
+				rh.OnUpdate(r, r.DeepCopy())
+			}
+			return
+		}
 		if how >= 3 {
 			// a scheduler that watched the pod's whole life (stand-by replica, or one that was restarted while the pod was
 			// in its binding cycle): pending -> the pre-bind patch adds the annotations -> the bind sets the node name
